@@ -11,7 +11,10 @@ import RedisVerif.Model.Wal
   `group_commit_max_entries`); the model makes that an arbitrary choice: an event list is any
   interleaving of `write` and `flush` events (a `flush` with nothing appended since the last one
   is a no-op, exactly like `flush_group_commit`).  `runGroups` is the specific schedule the real
-  loop follows when the mailbox receives the writes in bursts ("groups").
+  loop follows when the mailbox receives the messages in bursts ("groups").
+  Every public message of `WalActorHandle` is an event: `write_durable` (`write`),
+  `write_fire_and_forget` (`forget`), `sync_tick` (`tick`), `truncate` (`truncate`), `shutdown`
+  (= a final `flush`).
 -/
 namespace RedisVerif
 namespace Wal
@@ -51,10 +54,13 @@ structure Actor where
   pending : List (Nat × Entry)   -- `pending_acks` (id, entry appended for it)
   esync : Nat                    -- `entries_since_sync`
   acks : List AckRec             -- newest first
+  /-- ghost: 1 + the largest `TruncateUpTo` threshold handled so far (0 = none): entries stamped
+      below it may legitimately have been deleted from the WAL -/
+  tbound : Nat
   deriving Repr
 
 def Actor.init (maxSize : Nat) : Actor :=
-  { rot := Rot.init maxSize, pending := [], esync := 0, acks := [] }
+  { rot := Rot.init maxSize, pending := [], esync := 0, acks := [], tbound := 0 }
 
 /-- `handle_message_always` for `WalMessage::Write` -/
 def Actor.handleWrite (fix : Bool) (φ : Nat → Outcome) (fmt : Format) (crc : Bytes → Nat) (a : Actor) (w : Write) :
@@ -64,6 +70,26 @@ def Actor.handleWrite (fix : Bool) (φ : Nat → Outcome) (fmt : Format) (crc : 
   | (r, none) => { a with rot := r, esync := a.esync + 1, pending := a.pending ++ [(w.id, e)] }
   | (r, some x) => { a with rot := r, acks := ⟨w.id, e, .err x, r.w.io⟩ :: a.acks }
 
+/-- `handle_message_always` for a `Write` without ack channel (`write_fire_and_forget`): appended
+    and counted, nobody waits for it -/
+def Actor.handleForget (fix : Bool) (φ : Nat → Outcome) (fmt : Format) (crc : Bytes → Nat) (a : Actor)
+    (w : Write) : Actor :=
+  match Rot.append fix fmt φ a.rot (Entry.mk' fmt crc w.data w.ts) with
+  | (r, none) => { a with rot := r, esync := a.esync + 1 }
+  | (r, some _) => { a with rot := r }
+
+/-- `handle_message_always` for `SyncTick`.  CURRENT code (`tickSyncs = false`): a no-op in
+    Always mode.  `tickSyncs = true` is the variant in which the tick calls `rotator.sync()` and
+    only logs the result — which consumes the one-shot "a writer was dropped without a successful
+    fsync" error before the group-commit flush can see it. -/
+def Actor.handleTick (fix tickSyncs : Bool) (φ : Nat → Outcome) (a : Actor) : Actor :=
+  if tickSyncs && decide (a.esync ≠ 0) then { a with rot := (Rot.sync fix φ a.rot).1 } else a
+
+/-- `handle_message_always` for `TruncateUpTo` -/
+def Actor.handleTruncate (φ : Nat → Outcome) (fmt : Format) (crc : Bytes → Nat) (a : Actor) (T : Nat) :
+    Actor :=
+  { a with rot := Rot.truncate fmt crc φ T a.rot, tbound := Nat.max a.tbound (T + 1) }
+
 /-- `flush_group_commit` -/
 def Actor.flush (fix : Bool) (φ : Nat → Outcome) (a : Actor) : Actor :=
   if a.esync = 0 then a
@@ -72,35 +98,43 @@ def Actor.flush (fix : Bool) (φ : Nat → Outcome) (a : Actor) : Actor :=
     | (r, ok) =>
       let res := if ok then Ack.ok else Ack.err .fsync
       { rot := r, pending := [], esync := 0,
-        acks := (a.pending.map (fun p => (⟨p.1, p.2, res, r.w.io⟩ : AckRec))).reverse ++ a.acks }
+        acks := (a.pending.map (fun p => (⟨p.1, p.2, res, r.w.io⟩ : AckRec))).reverse ++ a.acks,
+        tbound := a.tbound }
 
 inductive Ev where
-  | write (w : Write)
-  | flush
+  | write (w : Write)        -- `write_durable`
+  | forget (w : Write)       -- `write_fire_and_forget`
+  | tick                     -- `sync_tick`
+  | truncate (T : Nat)       -- `truncate`
+  | flush                    -- group-commit flush (timeout / batch full / `shutdown`)
   deriving DecidableEq, Repr, Inhabited
 
-def Actor.step (fix : Bool) (φ : Nat → Outcome) (fmt : Format) (crc : Bytes → Nat) (a : Actor) : Ev → Actor
+def Actor.step (fix tickSyncs : Bool) (φ : Nat → Outcome) (fmt : Format) (crc : Bytes → Nat)
+    (a : Actor) : Ev → Actor
   | .write w => Actor.handleWrite fix φ fmt crc a w
+  | .forget w => Actor.handleForget fix φ fmt crc a w
+  | .tick => Actor.handleTick fix tickSyncs φ a
+  | .truncate T => Actor.handleTruncate φ fmt crc a T
   | .flush => Actor.flush fix φ a
 
-def Actor.run (fix : Bool) (φ : Nat → Outcome) (fmt : Format) (crc : Bytes → Nat) (maxSize : Nat) (evs : List Ev) :
-    Actor :=
-  evs.foldl (Actor.step fix φ fmt crc) (Actor.init maxSize)
+def Actor.run (fix tickSyncs : Bool) (φ : Nat → Outcome) (fmt : Format) (crc : Bytes → Nat)
+    (maxSize : Nat) (evs : List Ev) : Actor :=
+  evs.foldl (Actor.step fix tickSyncs φ fmt crc) (Actor.init maxSize)
 
-/-- the schedule of `run_always_mode` when the writes arrive in bursts: messages of a burst are
-    handled one after the other; as soon as `entries_since_sync` reaches
+/-- the schedule of `run_always_mode` when the messages arrive in bursts: messages of a burst
+    are handled one after the other; as soon as `entries_since_sync` reaches
     `group_commit_max_entries` the batch is flushed; when the mailbox runs empty (and the wait
     times out) whatever is pending is flushed -/
-def Actor.runGroup (fix : Bool) (φ : Nat → Outcome) (fmt : Format) (crc : Bytes → Nat) (maxEntries : Nat)
-    (a : Actor) (ws : List Write) : Actor :=
+def Actor.runGroup (fix tickSyncs : Bool) (φ : Nat → Outcome) (fmt : Format) (crc : Bytes → Nat)
+    (maxEntries : Nat) (a : Actor) (msgs : List Ev) : Actor :=
   Actor.flush fix φ
-    (ws.foldl (fun a w =>
-      let a1 := Actor.handleWrite fix φ fmt crc a w
+    (msgs.foldl (fun a m =>
+      let a1 := Actor.step fix tickSyncs φ fmt crc a m
       if maxEntries ≤ a1.esync then Actor.flush fix φ a1 else a1) a)
 
-def Actor.runGroups (fix : Bool) (φ : Nat → Outcome) (fmt : Format) (crc : Bytes → Nat) (maxSize maxEntries : Nat)
-    (gs : List (List Write)) : Actor :=
-  gs.foldl (Actor.runGroup fix φ fmt crc maxEntries) (Actor.init maxSize)
+def Actor.runGroups (fix tickSyncs : Bool) (φ : Nat → Outcome) (fmt : Format) (crc : Bytes → Nat)
+    (maxSize maxEntries : Nat) (gs : List (List Ev)) : Actor :=
+  gs.foldl (Actor.runGroup fix tickSyncs φ fmt crc maxEntries) (Actor.init maxSize)
 
 /-- the store as it was after `t` I/O calls (`t = 0`: before the first one) -/
 def World.storeAt (w : World) (t : Nat) : Option Store := w.hist.reverse[t]?
